@@ -69,7 +69,8 @@ NetOk(r) ==
           /\ ~r.changedB
      ELSE IF r.fault_b # ""
      THEN \* an allowed request that fails locally is reported with the document and the peer it was about
-          /\ r.resB = "Sync" /\ r.infoB.nsknown /\ r.infoB.ns /\ r.infoB.peer
+          \* (which error variant carries them is not the property's business)
+          /\ r.resB \in {"Sync", "Close", "Open", "Abort"} /\ r.infoB.nsknown /\ r.infoB.ns /\ r.infoB.peer
           /\ r.resA \in {"ok", "Sync", "Close"}
      ELSE /\ r.resA = "ok" /\ r.resB = "ok"
           /\ r.okA.ns /\ r.okA.peer /\ r.infoB.ns /\ r.infoB.peer
